@@ -62,6 +62,9 @@ class CJob:
         if z3.is_false(bad):
             st.discharged += 1; st.trivial += 1; return True
         st.nontrivial_keys.add((self.hid, name))
+        if len(st.inconclusive) >= 2:
+            # the job is already inconclusive: do not burn a solver timeout per remaining obligation
+            st.inconclusive.append(dict(harness=self.hid, obligation=name, reason='skipped after two inconclusive obligations')); return False
         r, m = self._solve(ex, assumes, bad)
         if r == 'unsat':
             st.discharged += 1; return True
